@@ -429,6 +429,15 @@ def run_case(case, rec, mon=None):
             chan = 0 if (scn["channel"] == -1) else scn["channel"]
             x1 = x[chan]
             expected[u["id"]] = x1
+        # the library pipeline itself must be defined for every utterance (e.g. Stack may leave no frame for a
+        # following Standardize, which refuses empty input): otherwise there is nothing to compare with
+        try:
+            for uid, x1 in expected.items():
+                expected_features(scn, x1, stats_path)
+        except Exception as e:
+            rec.count("scenarios_skipped_pipeline_undefined")
+            rec.note("scenario %d skipped: the library pipeline raises %r" % (scn["idx"], e))
+            return
         rec.ev()
         rec.count("scenarios_" + tool)
         rec.count("scenario_kind_" + scn["kind"])
